@@ -104,13 +104,16 @@ Definition deliver (rt : record_type) (writes : list bytes) (c : channel) : chan
   end.
 
 (* ---------- run_task_executable.py:finish_execution ---------- *)
-Inductive effect := WriteArgsJson | WriteOptionsJson | RaiseNonZeroExit | InsertRow | CommitIndex.
+Inductive effect := CloseLog | WriteArgsJson | WriteOptionsJson | RaiseNonZeroExit | InsertRow | CommitIndex.
 
-(* in program order: args.json / options.json are written for every execution (D26: they used to
+(* in program order: first both logs are finished -- OutputHandler.finish() joins the copier thread, i.e. waits until the
+   pipe has reached end of file, and closes the file: from then on Conductor writes nothing more into the directory
+   except the two record files --; args.json / options.json are written for every execution (D26: they used to
    come after the exit-status test); a non-zero status then raises TaskNonZeroExit, otherwise the
    version's row is inserted and committed *)
 Definition finish_execution (returncode : N) (serialize_args_options : bool)
            (args_empty options_empty : bool) (has_version : bool) : list effect :=
+  [CloseLog; CloseLog] ++
   (if serialize_args_options
    then (if negb args_empty then [WriteArgsJson] else [])
         ++ (if negb options_empty then [WriteOptionsJson] else [])
